@@ -54,6 +54,9 @@ pub struct LongScript {
     pub period_plan: Vec<u8>,
     pub target_height: u32,
     pub candidates_left: u32,
+    /// mode 0: short forks near the tips (many tips far from the anchor)
+    pub twigs: bool,
+    pub a_recent: Vec<usize>,
 }
 
 pub fn profile_networks(profile: &str) -> &'static [&'static str] {
@@ -145,10 +148,11 @@ pub fn draw_config(profile: &str, seed: u64, tier_thorough: bool) -> (RunConfig,
             sw.weights = [30, 40, 28, 14, 3, 4, 2];
             sw.client_mix = [0, 0, 0, 10, 0, 0, 0];
             sw.tx_density = sw.tx_density.max(3);
-            sw.many_txs = rng.chance(1, if tier_thorough { 12 } else { 120 });
+            sw.many_txs = rng.chance(1, if tier_thorough { 10 } else { 50 });
             if sw.many_txs {
                 // keep > 10,000 transactions unstable: the window is cut inside a block
-                sw.weights = [40, 40, 28, 10, 0, 2, 1];
+                sw.upgrades = true;
+                sw.weights = [40, 40, 28, 12, 0, 6, 1];
                 sw.fork_propensity = 1;
                 sw.max_events = sw.max_events.max(90);
             }
@@ -167,6 +171,7 @@ pub fn draw_config(profile: &str, seed: u64, tier_thorough: bool) -> (RunConfig,
     }
     let mut threshold = threshold;
     let mut network = network;
+    let mut genesis_difficulty = 0u64;
     if sw.many_txs {
         threshold = *rng.pick(&[30u32, 144]);
     }
@@ -180,11 +185,33 @@ pub fn draw_config(profile: &str, seed: u64, tier_thorough: bool) -> (RunConfig,
         network = rng.pick(&["regtest", "regtest", "testnet"]).to_string();
         threshold = *rng.pick(&[144u32, 400, 499, 500, 600, 600, 2000]);
         let race_until = *rng.pick(&[300u32, 900, 1520, 1560, 1600]);
+        if threshold < 499 && rng.chance(2, 3) {
+            // heavy anchor: the difficulty rule stays out of reach, the depth bound decides
+            genesis_difficulty = *rng.pick(&[10u64, 40]);
+        }
         sw.script = Some(LongScript {
             race_until,
             max_lead_in_race: *rng.pick(&[100u32, 300, 460, 480]),
             pull_ahead_to: 640,
-            single_branch: rng.chance(1, 6),
+            single_branch: rng.chance(1, 4),
+            twigs: rng.chance(1, 2),
+            ..Default::default()
+        });
+    }
+    if profile == "C07" && rng.chance(1, if tier_thorough { 8 } else { 25 }) {
+        // chains taller than the 100-header response cap, stable / unstable / straddling
+        sw.long_chain = true;
+        sw.max_events = 4000;
+        sw.tx_density = 0;
+        sw.upgrades = false;
+        sw.fault_cfg = false;
+        network = rng.pick(&["regtest", "regtest", "testnet", "mainnet"]).to_string();
+        threshold = *rng.pick(&[2u32, 40, 144, 144]);
+        sw.script = Some(LongScript {
+            race_until: *rng.pick(&[0u32, 60]),
+            max_lead_in_race: 10,
+            pull_ahead_to: *rng.pick(&[130u32, 210, 320]),
+            single_branch: rng.chance(1, 2),
             ..Default::default()
         });
     }
@@ -244,6 +271,7 @@ pub fn draw_config(profile: &str, seed: u64, tier_thorough: bool) -> (RunConfig,
         fees,
         quiesce: true,
         watchdog_target: 0,
+        genesis_difficulty,
     };
     (cfg, sw)
 }
@@ -632,9 +660,29 @@ fn long_next(sw: &mut Swarm, w: &World, rng: &mut Rng) -> Event {
     if on_a {
         sc.a_tip = parent;
         sc.a_len += k;
+        sc.a_recent.push(parent);
     } else {
         sc.b_tip = parent;
         sc.b_len += k;
+    }
+    if sc.twigs && on_a && k >= 3 && rng.chance(1, 2) {
+        // a one- or two-block fork a few blocks below the tip of branch A
+        let mut p = parent - rng.range(1, 2) as usize; // ids of a chunk are consecutive
+        for _ in 0..rng.range(1, 2) {
+            sc.queue.push_back(Event::Mine(MineSpec {
+                id: next_id,
+                parent: p,
+                seed: rng.next_u64(),
+                ntx: 0,
+                dt: 1300,
+                difficulty: 0,
+                special: Special::BareCoinbase,
+                mutation: Mutation::None,
+                remine: 0,
+            }));
+            p = next_id;
+            next_id += 1;
+        }
     }
     // sync: fetch, deliver, process (+ ingest) until everything is in
     let rounds = k / 100 + 2;
